@@ -892,7 +892,7 @@ func (s *c07sig) selVar(sel c07sel) *c07var {
 type c07emitter struct {
 	o     *out
 	stats map[string]int
-	neg   bool // emit only the requests with a negative index / selector (finding F3), else only the others
+	neg   bool // emit only the requests with a negative index / selector (regression of F3); default: everything
 }
 
 func c07isNeg(sel c07sel, path []c07step) bool {
@@ -909,7 +909,7 @@ func c07isNeg(sel c07sel, path []c07step) bool {
 
 // emitResolve writes the exact and the acceptor request for one (sig, sel, path).
 func (e *c07emitter) emitResolve(s *c07sig, sigToks string, sel c07sel, path []c07step, class string) {
-	if c07isNeg(sel, path) != e.neg {
+	if e.neg && !c07isNeg(sel, path) {
 		return
 	}
 	res, text := c07run(s.real, sel, path)
@@ -1011,7 +1011,8 @@ func (e *c07emitter) emitSig(g *c07gen, s *c07sig, full bool) {
 }
 
 func (e *c07emitter) emitWhole(s *c07sig, st string) {
-	e.o.emit("argsize "+st, fmt.Sprintf("%d %d %d", s.real.Params().Bytes(), s.real.Results().Bytes(), s.real.Bytes()))
+	// only the total is pinned down by the property (how padding is attributed to the two tuples is free)
+	e.o.emit("argsize "+st, itoa(s.real.Bytes()))
 	e.o.emit("accept-argsize "+st+" "+itoa(s.real.Bytes()), "ok")
 	e.o.emit("accept-text "+st+" "+c07textSize(s.real), "ok")
 	seen := map[string]bool{}
@@ -1129,7 +1130,7 @@ var c07corpus = []string{
 	"func(a, b, c struct{ x int8; y int32 }, d int8) (e, f [3]int8, g int64)",
 	"func(x uintptr, b bool, f float32, g float64) (u uint, v uint8)",
 	"func(x struct{ b bool; s []struct{ a int } ; t string; c complex128; z [0]struct{ a int64 } })",
-	"func(x [4]uint32)", // witness of finding F3: Index(-1), At(-1)
+	"func(x [4]uint32)", // regression of F3 (fixed in aab3c52): Index(-1), At(-1) must be errors
 }
 
 func init() {
